@@ -78,3 +78,6 @@ template void witness_optimizer(SplineOptimizer<WIT_DIM_A, QuinticSplineND<WIT_D
 template void witness_optimizer(SplineOptimizer<WIT_DIM_A, SepticSplineND<WIT_DIM_A>> &, const SplineOptimizer<WIT_DIM_A, SepticSplineND<WIT_DIM_A>> &);
 template void witness_optimizer(SplineOptimizer<WIT_DIM_A, QuinticSplineND<WIT_DIM_A>, IdentityTimeMap, WitSpatialMap> &,
                                 const SplineOptimizer<WIT_DIM_A, QuinticSplineND<WIT_DIM_A>, IdentityTimeMap, WitSpatialMap> &);
+
+// never called by the library itself (the call sits in a discarded if-constexpr branch): instantiate for C08-R5
+template double SplineTrajectory::VoidWaypointsCost::operator()<Eigen::MatrixXd, Eigen::MatrixXd>(const Eigen::MatrixXd &, Eigen::MatrixXd &) const;
